@@ -5,7 +5,7 @@ package genbank
 // C01: GenBank parsing returns exactly what a well-formed record states.
 //
 // verif:bound C01 records laid out by the harness's independent writer (standard flat-file columns): locus names of 2, 3 or 5 symbolic characters (lower-case letters other than g m o r t u v, last character also a digit), sequence lengths 4, 12, 61 (one, two digits; crossing an ORIGIN line) with every letter symbolic (a-z), molecule types DNA/mRNA/tRNA/rRNA, linear/circular, DEFINITION on one or two lines and ORGANISM with a taxonomy line (one symbolic word each), 0..1 (quick) / 0..2 (thorough) references with PUBMED and REMARK, optional COMMENT block
-// verif:bound C01 feature tables: none; one feature with one qualifier; a feature without qualifiers followed by another; location text on two and on three lines; a qualifier value wrapped onto a continuation line; a value filling its line so that only the closing quote wraps; two features with two qualifiers; a 15-character feature key with a wrapped /translation followed by a wrapped /note. Qualifier values 2 symbolic bytes (3 in the thorough tier for the single-qualifier and the wrapped-value tables) over printable ASCII without the double quote (so '/', '=' and inner spaces are included; leading/trailing spaces excluded)
+// verif:bound C01 feature tables: none; one feature with one qualifier; a feature without qualifiers followed by another; location text on two and on three lines; a qualifier value wrapped onto a continuation line (also one holding a run of two blanks); a value filling its line so that only the closing quote wraps; two features with two qualifiers; a 15-character feature key with a wrapped /translation followed by a wrapped /note. Qualifier values 2 symbolic bytes (3 in the thorough tier for the single-qualifier and the wrapped-value tables) over printable ASCII without the double quote (so '/', '=' and inner spaces are included; leading/trailing spaces excluded)
 // verif:bound C01 multi-record clause: ParseMulti on one or two records with and without final newline, ParseFlat behind a 10-line header; each result compared with parsing that record alone
 // verif:bound C01 long-record clause: a three-record file whose middle record has 60000 (quick) / 52000..140000 (thorough) ORIGIN letters (concrete body, symbolic ends)
 // verif:bound C01 outside the claim: 40 features, 5 records, values long enough to wrap more than once, Read* wrappers and gzip
